@@ -355,3 +355,9 @@ SUITES = [LoginSuite(), FullBootSuite()]
 from . import C18u  # noqa: E402  (the U-Boot stage; imports this module)
 
 SUITES = SUITES + C18u.SUITES
+
+
+def extra_obligations(tier):
+    """the translated part of the model: regenerated from the current source and re-proved equal to what the theorems use"""
+    from vlib import gen
+    return gen.obligations(only=["gen_board_constants_are_the_model"])
